@@ -1692,6 +1692,8 @@ class ThroughputCalculator:
             )
         current = self.task_stats[task]
         count = current.total_count
+        # all previously unprocessed samples are part of `current_samples`; start over so none of them is carried (and counted) twice
+        current.unprocessed = []
         last_sample = None
         for sample in current_samples:
             last_sample = sample
